@@ -51,6 +51,11 @@ def run(F, rep, tier):
     import_pass(F, rep)
     chained_namespace(F, rep)
     _split_keeps_initialisation_order(F, rep)
+    # splitting moves globals to another file, which the checker reaches later: nothing may be decided about a type only
+    # because it is not known *yet* (shared with C08 and C11)
+    import core
+    import c08
+    core.borrow(rep, c08.unknown_is_deferred, lambda o: o["rule"] == "INFERENCE" and "=>error" in o["key"], F)
 
 
 def _tree_roles(fn):
